@@ -37,6 +37,9 @@ const (
 	policyErrInvalidFirstChar     = policyErr("Policies must be valid JSON and the first byte must be '{'")
 	policyErrEmptyStatement       = policyErr("Could not parse the policy: Statement is empty!")
 	policyErrMissingStatmentField = policyErr("Missing required field Statement")
+	policyErrMissingPrincipal     = policyErr("Missing required field Principal")
+	policyErrMissingAction        = policyErr("Missing required field Action")
+	policyErrMissingResource      = policyErr("Missing required field Resource")
 )
 
 type BucketPolicy struct {
@@ -99,6 +102,16 @@ type BucketPolicyItem struct {
 func (bpi *BucketPolicyItem) Validate(bucket string, iam IAMService) error {
 	if err := bpi.Effect.Validate(); err != nil {
 		return err
+	}
+	// an absent member leaves its map nil, which passes every check below
+	if len(bpi.Principals) == 0 {
+		return policyErrMissingPrincipal
+	}
+	if len(bpi.Actions) == 0 {
+		return policyErrMissingAction
+	}
+	if len(bpi.Resources) == 0 {
+		return policyErrMissingResource
 	}
 	if err := bpi.Principals.Validate(iam); err != nil {
 		return err
